@@ -118,13 +118,16 @@ Section Exec.
         | _, _ => CStuck
         end
     | CNot x => match eval_cond cur x with CB r => CB (negb r) | o => o end
-    | CAnd x y => match eval_cond cur x with
-                  | CB true => eval_cond cur y
-                  | o => o
+    (* ill-typedness (CStuck) is static in Go: both operands are checked; panics follow evaluation order *)
+    | CAnd x y => match eval_cond cur x, eval_cond cur y with
+                  | CStuck, _ | _, CStuck => CStuck
+                  | CB true, r => r
+                  | o, _ => o
                   end
-    | COr x y => match eval_cond cur x with
-                 | CB false => eval_cond cur y
-                 | o => o
+    | COr x y => match eval_cond cur x, eval_cond cur y with
+                 | CStuck, _ | _, CStuck => CStuck
+                 | CB false, r => r
+                 | o, _ => o
                  end
     | CHelper h f => match get_path cur [f] with
                      | Some (VStr s) => match helper_model h s with Ok r => CB r | Panic => CPanic end
